@@ -121,7 +121,7 @@ def compat(t, want) -> bool:
     return False
 
 
-def param_is_written(name: str, body: list) -> bool:
+def param_is_written(name: str, body: list, mtype: str | None = None) -> bool:
     """Does the body change the object bound to this parameter (or hand it to something that might)?"""
     for st in body:
         for n in ast.walk(st):
@@ -133,10 +133,13 @@ def param_is_written(name: str, body: list) -> bool:
                     return True
                 for a in list(n.args) + [kw.value for kw in n.keywords]:
                     if isinstance(a, ast.Name) and a.id == name and not (isinstance(n.func, ast.Name) and n.func.id in ("len", "type", "isinstance", "getattr")):
+                        if isinstance(n.func, ast.Attribute) and isinstance(n.func.value, ast.Name) and n.func.value.id == "self" \
+                                and n.func.attr in READER_METHODS:
+                            continue
                         return True
                     if isinstance(a, ast.Attribute) and isinstance(a.value, ast.Name) and a.value.id == name \
                             and not (isinstance(n.func, ast.Name) and n.func.id in ("len", "type", "isinstance", "getattr")) \
-                            and any(d["name"] == a.attr and d["type"] == 11 for fs in MESSAGES.values() for d in fs):
+                            and any(d["name"] == a.attr and d["type"] == 11 for mn, fs in MESSAGES.items() if mtype in (None, "*", mn) for d in fs):
                         # a sub-message handed on: written if the callee may write to it (a method of self already translated
                         # without in/out parameters only reads)
                         if isinstance(n.func, ast.Attribute) and isinstance(n.func.value, ast.Name) and n.func.value.id == "self" \
@@ -1813,8 +1816,12 @@ UNITS = {
                          {"family": "Decoder", "classes": ["Decoder"],
                           "skip_fields": ["row_handlers", "term_handlers"],
                           "field_types": {"repeated_terms": "dict[str, object]"},
-                          "skip": ["iter_rows", "decode_row", "decode_term", "decode_graph_start", "decode_statement", "decode_triple",
-                                   "decode_quoted_triple", "decode_quad"]}]},
+                          "param_types": {"decode_row.row": "pbany", "decode_term.term": "pbany"},
+                          "inline": ["decode_statement"],
+                          # (the source annotates the list of decoded terms as `Any`)
+                          "return_types": {"decode_statement": "list[Any]"},
+                          "yield_types": {"iter_rows": "Any | None"},
+                          "skip": []}]},
     "encode": {"src": "pyjelly/serialize/encode.py", "ctx": True, "uses": ["lookup_enc", "options"], "gen": "EncodeGen",
                "items": ["split_iri", ("TermEncoder", ["__init__", "start_statement", "_entry_index", "encode_iri_indices", "encode_iri",
                                                        "encode_default_graph", "encode_literal"], ["encode_spo", "encode_graph"]),
